@@ -19,24 +19,28 @@ from harness.core import Ctx
 from harness.tlc import tla_set as S, tla_lit as L
 
 SCENARIOS = [      # (script, events, failing handlers, handlers that call stop(), START_EVENT listener command, STOP_EVENT listener command)
-    (["start", "stop"], 1, [], [], "none", "none"),
+    # ---- quick and thorough
     (["start", "stop", "start"], 2, [1], [], "none", "none"),
     (["start", "start"], 2, [], [1], "none", "none"),
     (["start", "stop", "start", "stop"], 3, [1], [], "none", "none"),
-    (["stop", "start", "start"], 1, [], [], "none", "none"),
     (["start", "stop", "start"], 3, [], [2], "none", "none"),
-    (["start", "start", "stop"], 2, [], [], "none", "none"),
     (["start", "endrep"], 2, [], [], "none", "none"),
     (["start", "stop", "endrep"], 2, [1], [], "none", "none"),
     (["start"], 2, [], [], "stop", "none"),
     (["start", "stop"], 2, [], [], "none", "start"),
     (["start", "start"], 2, [1], [], "none", "start"),
-    (["endrep", "start"], 1, [], [], "none", "none"),
-    (["start", "endrep", "stop"], 2, [], [], "none", "none"),
     (["start", "cleanup"], 2, [], [], "none", "none"),
     (["start", "stop", "cleanup", "start"], 2, [1], [], "none", "none"),
-    (["start", "stop", "start"], 3, [], [], "stop", "start"),
     (["start", "cleanup", "endrep"], 2, [], [1], "none", "none"),
+    # ---- thorough only
+    (["start", "stop"], 1, [], [], "none", "none"),
+    (["stop", "start", "start"], 1, [], [], "none", "none"),
+    (["start", "start", "stop"], 2, [], [], "none", "none"),
+    (["endrep", "start"], 1, [], [], "none", "none"),
+    (["start", "endrep", "stop"], 2, [], [], "none", "none"),
+    (["start", "stop", "start"], 3, [], [], "stop", "start"),
+    (["start", "stop", "cleanup"], 3, [], [2], "none", "start"),
+    (["start", "cleanup", "start", "stop"], 2, [2], [], "none", "none"),
 ]
 STRICT = ["NoStuckState", "StartEffective", "NoSpuriousSegment", "CleanupFinal", "EndedFinal", "ThreadGoneAfterEnd", "RefusedWroteNothing", "StopEffective", "EndRepEffective"]
 LIVE = ["Settles", "EndedThreadGone", "EveryCommandReturns"]
@@ -284,7 +288,7 @@ def overlap_layer(ctx: Ctx):
         diverged = 0
         nbeh = 0
         all_traces = {}
-        for si, (script, nev, faulty, stoppers, onstart, onstop) in enumerate(SCENARIOS[: ctx.pick(12, 15)]):
+        for si, (script, nev, faulty, stoppers, onstart, onstop) in enumerate(SCENARIOS[: ctx.pick(12, len(SCENARIOS))]):
             c = consts(script, nev, faulty, stoppers, onstart, onstop)
             # exhaustive: strict invariants expose the known races, the K-invariants must hold
             files, mod, cfg = tlc.mc_files("MC_SimThreads", "SimThreads", c, invariants=KNOWN)
@@ -298,7 +302,7 @@ def overlap_layer(ctx: Ctx):
             ctx.add_tlc(f"SimThreads {script} liveness {LIVE}", rl)
             if not rl.ok:
                 raise tlc.MachineryError(f"SimThreads.tla violates liveness {rl.violated} for {script}")
-            if si == 2:      # (a scenario in which the run thread waits for itself) vacuity guards: a false liveness property is refuted; without the clock's fairness the threads need not settle
+            if si == 1:      # (a scenario in which the run thread waits for itself) vacuity guards: a false liveness property is refuted; without the clock's fairness the threads need not settle
                 for spec_, prop_, extra_ in (("LiveSpec", "Bogus", 'Bogus == <>[](pc["w"] = "Done")'), ("NoClock", "Settles", "NoClock == Spec /\\ WF_vars(caller)")):
                     files, mod, cfg = tlc.mc_files("MC_SimThreads_live", "SimThreads", c, spec=spec_, properties=[prop_], extra_defs=extra_)
                     rb = tlc.run(mod, cfg, extra_files=files, workers=4, timeout=900)
